@@ -62,9 +62,15 @@ def make_event(idx, n_particles):
         p.interaction.inelasticity = 0.1 * (k + 1)
         p.interaction.em_frac = 0.25 + 0.01 * idx
         p.interaction.had_frac = 0.5 - 0.01 * k
-        p.survival_weight = 0.9 - 0.01 * idx
+        # (one particle in four has a survival weight of exactly zero: an opaque Earth chord is an ordinary stored value)
+        p.survival_weight = 0.0 if (idx + k) % 4 == 3 else 0.9 - 0.01 * idx
         p.interaction_weight = 0.01 * (idx + 1)
         ps.append(p)
+    if n_particles >= 2 and idx % 2 == 1:
+        # every other multi-particle event is a tree: the first particle is the root, the others are its secondaries
+        ev = Event(ps[0])
+        ev.add_children(ps[0], ps[1:])
+        return ev
     return Event(ps)
 
 
